@@ -231,6 +231,108 @@ theorem db_protocol_order :
     inOrder ["roStoreDb", "collSetRo"] Lifecycle.db_set_read_only = true := by
   decide
 
+/-! ## read-only through the database -/
+
+/-- no thread is about to run `AndaDB::set_read_only(false)` -/
+def noDbEnable (ts : List Thread) : Bool := ts.all (fun t => t.pc != .bStart false)
+
+/-- the event does not start an `AndaDB::set_read_only(false)` -/
+def evNoDbEnable : Ev → Bool
+  | .spawn (.dbSetRo false) _ => false
+  | _ => true
+
+theorem stepT_dbRo {i : Nat} {s s' : Shared} {t t' : Thread} (h : stepT i s t = some (s', t'))
+    (hd : s.dbRo = true) (hp : t.pc ≠ .bStart false) : s'.dbRo = true ∧ t'.pc ≠ .bStart false := by
+  unfold stepT at h
+  split at h <;> (try split at h) <;> (try split at h) <;> (try split at h) <;>
+    simp_all <;>
+    (try (obtain ⟨rfl, rfl⟩ := h; simp_all [Shared.release, Shared.putObj, Shared.delObj]))
+
+theorem fresh_pc (k : Kind) (b : List B) (h : evNoDbEnable (Ev.spawn k b) = true) : (fresh k b).pc ≠ .bStart false := by
+  cases k with
+  | dbSetRo x => cases x <;> simp_all [fresh, evNoDbEnable]
+  | _ => simp [fresh]
+
+theorem apply_dbRo (c : Cfg) (e : Ev) (hd : c.s.dbRo = true) (hn : noDbEnable c.ts = true) (he : evNoDbEnable e = true) :
+    (c.apply e).s.dbRo = true ∧ noDbEnable (c.apply e).ts = true := by
+  have hall : ∀ t ∈ c.ts, t.pc ≠ .bStart false := by
+    intro t ht
+    have := List.all_eq_true.mp hn t ht
+    simpa using this
+  cases e with
+  | spawn k b =>
+    refine ⟨hd, ?_⟩
+    simp only [Cfg.apply, noDbEnable, List.all_append, Bool.and_eq_true]
+    exact ⟨hn, by simpa using fresh_pc k b he⟩
+  | step i =>
+    simp only [Cfg.apply]
+    cases hg : c.ts[i]? with
+    | none => exact ⟨hd, hn⟩
+    | some t =>
+      have hp := hall t (List.mem_of_getElem? hg)
+      cases hs : stepT i c.s t with
+      | none => simp only [hs]; exact ⟨hd, hn⟩
+      | some r =>
+        obtain ⟨s', t'⟩ := r
+        have h := stepT_dbRo hs hd hp
+        simp only [hs]
+        refine ⟨h.1, ?_⟩
+        simp only [noDbEnable, List.all_eq_true]
+        intro x hx
+        rcases List.mem_or_eq_of_mem_set hx with hx | rfl
+        · simpa using hall x hx
+        · simpa using h.2
+  | cancel i =>
+    simp only [Cfg.apply]
+    cases hg : c.ts[i]? with
+    | none => exact ⟨hd, hn⟩
+    | some t =>
+      have hc : (cancelT i c.s t).1.dbRo = true ∧ (cancelT i c.s t).2.pc ≠ .bStart false := by
+        have hp := hall t (List.mem_of_getElem? hg)
+        unfold cancelT
+        split <;> (try split) <;> simp_all [Shared.release]
+      simp only
+      refine ⟨hc.1, ?_⟩
+      simp only [noDbEnable, List.all_eq_true]
+      intro x hx
+      rcases List.mem_or_eq_of_mem_set hx with hx | rfl
+      · simpa using hall x hx
+      · simpa using hc.2
+
+theorem blockedAlong_of_db_read_only (c : Cfg) (evs : List Ev) (hd : c.s.dbRo = true) (hn : noDbEnable c.ts = true)
+    (he : evs.all evNoDbEnable = true) : blockedAlong c evs = true := by
+  induction evs generalizing c with
+  | nil => simp [blockedAlong, Shared.blocked, hd]
+  | cons e es ih =>
+    simp only [List.all_cons, Bool.and_eq_true] at he
+    simp only [blockedAlong, Bool.and_eq_true]
+    have h := apply_dbRo c e hd hn he.1
+    exact ⟨by simp [Shared.blocked, hd], ih (c.apply e) h.1 h.2 he.2⟩
+
+/-- **Read-only through the database.** Once `AndaDB::set_read_only(true)` has published the database flag, and as long
+as nobody calls `AndaDB::set_read_only(false)`, every guarded call that has not yet passed `ensure_mutable` — parked on
+the gate when the flag was set, or started later — is never admitted and writes nothing, under every schedule and
+whatever else is called meanwhile: in particular `Collection::set_read_only(false)` cannot lift it (it is ignored,
+`set_read_only_false_ignored`), nor can a close, a delete, a poison or a cancellation. -/
+theorem db_read_only_ops_rejected (c : Cfg) (evs : List Ev) (i : Nat) (t : Thread)
+    (hd : c.s.dbRo = true) (hn : noDbEnable c.ts = true) (he : evs.all evNoDbEnable = true)
+    (hget : c.ts[i]? = some t) (hq : t.queued = true) :
+    ∃ t', (c.run evs).ts[i]? = some t' ∧ t'.unadmitted = true ∧
+      writesBy i (c.run evs).s.log = writesBy i c.s.log :=
+  queued_ops_rejected c evs i t (blockedAlong_of_db_read_only c evs hd hn he) hget hq
+
+/-- non-vacuity: `flush` (exclusive) in flight, `add` parked behind it, the database goes read-only, the collection is
+told `set_read_only(false)` (ignored), the flush finishes: the add is rejected as read-only and nothing of it is stored -/
+example :
+    let c := (init []).run [.spawn (.mutator true true) [.put 5], .step 0, .step 0, .step 0,
+      .spawn (.mutator false false) [.put 1], .step 1,
+      .spawn (.dbSetRo true) [], .step 2, .step 2, .step 2,
+      .spawn (.setRo false) [], .step 3, .step 3,
+      .step 0, .step 0, .step 0, .step 0, .step 1, .step 1, .step 1]
+    (c.ts[1]?).map (·.pc) = some (.done .rejRo) ∧ (c.ts[3]?).map (·.pc) = some (.done .ignored) ∧
+      c.s.store = [5] ∧ c.s.dbRo = true := by decide
+
+
 /-! ## log_sound (the history form of no_write_when_retired) -/
 
 /-- Every storage mutation that ever happened under the prefix, in every history: a guarded mutator
